@@ -1,0 +1,9 @@
+//go:build verif
+
+// C07: P_hash is a cryptographic primitive for the exporter property: kept opaque (never inlined)
+// and observed through its call event. Comment-only; read by /verif/vc.
+package prf
+
+//@ func PHash
+//@ noinline
+//@ end
